@@ -364,10 +364,13 @@ async def _tx_session(spec, sess):
     real_connect = client.connect
     nconn = [0]
 
-    async def connect_wrapped():
+    def connect_wrapped():
+        # a plain function: runs when `self.connect()` is evaluated, i.e. in the task that CREATES the connect
+        # task (a send() fault handler, or connect() itself re-arming after a fault reported while it was
+        # finishing — fix ec78efa), so the creator is known
         nconn[0] += 1
-        sess.ev(["connect_call"])
-        return await real_connect()
+        sess.ev(["connect_call", _tname()])
+        return real_connect()
 
     client.connect = connect_wrapped
     scb = spec.get("status_cb", "ret")
